@@ -458,15 +458,21 @@ func (e *fnEnc) varAt(name string, at, from *ssa.BasicBlock, heap map[string]str
 // varAtIdx resolves a source variable just before instruction index upto of block at (upto < 0: at block entry, after the phis).
 func (e *fnEnc) varAtIdx(name string, at *ssa.BasicBlock, upto int, from *ssa.BasicBlock, heap map[string]string) (TV, bool) {
 	// address-taken locals live in memory: always read the cell (value snapshots in DebugRefs are stale)
+	// (two locals of the same name - an inner one shadowing an outer one: the one declared last among those whose
+	// declaration dominates the point is the one in scope there)
+	var best *ssa.Alloc
 	for _, b := range e.fn.Blocks {
 		for _, in := range b.Instrs {
 			if al, ok := in.(*ssa.Alloc); ok && al.Comment == name && (b == at || b.Dominates(at)) {
-				if _, seen := e.val[al]; seen {
-					T := al.Type().Underlying().(*types.Pointer).Elem()
-					return e.loadVia(al, T, heap), true
+				if _, seen := e.val[al]; seen && (best == nil || al.Pos() > best.Pos()) {
+					best = al
 				}
 			}
 		}
+	}
+	if best != nil {
+		T := best.Type().Underlying().(*types.Pointer).Elem()
+		return e.loadVia(best, T, heap), true
 	}
 	for blk := at; blk != nil; blk = blk.Idom() {
 		instrs := blk.Instrs
